@@ -29,6 +29,7 @@ import LdkModel.Generated.Consts
 import LdkModel.Generated.Gossip
 import LdkModel.Model.GossipSig
 import LdkModel.Generated.GossipNetUpd
+import LdkModel.Generated.GossipUtxo
 namespace Ldk.Gossip
 
 /-! ### canonical finite maps -/
@@ -881,6 +882,15 @@ def handleNetworkUpdate (g : Graph) (u : NetUpd) (now : Nat) : Graph :=
   match netUpdateOp u now with
   | some op => (step g op).1
   | none => g
+
+/-! ### UTXO lookup answers -/
+
+-- mirrors utxo.rs::check_channel_announcement::handle_result, arm Ok(TxOut { value, script_pubkey }): the answer
+-- validates the announcement with `value` unless the GENERATED script test refuses it. The model has ONE
+-- "lookup refused" outcome (`Utxo.unknownTx`: reject, nothing stored); the driver prints the error text of the
+-- script mismatch for it when the answer was a TxOut.
+def utxoOfTxOut (value scriptPubkey expectedScript : Nat) : Utxo :=
+  if Gen.utxoScriptRefused scriptPubkey expectedScript then .unknownTx else .value value
 
 end Impl
 
